@@ -59,8 +59,8 @@ def gen_case(rng):
             "alternatives": gen.labels(rng, n, gen.LABEL_POOL_A, "A"),
             "criteria": gen.labels(rng, m, gen.LABEL_POOL_C, "C"),
             "dmaker": rng.choice(["topsis", "ratio", "refpoint"]),
-            "repeat": rng.randint(1, 3), "strategy": rng.choice(["median", "mean", "max"]),
-            "seed": rng.randint(0, 10 ** 6), "drop": drop, "allow_missing": rng.random() < 0.7}
+            "repeat": rng.randint(1, 3), "strategy": rng.choice(["median", "mean", "max", "min"]),
+            "seed": rng.choice([0, rng.randint(0, 10 ** 6), rng.randint(0, 10 ** 6), rng.randint(0, 10 ** 6), 2 ** 32 - 1]), "drop": drop, "allow_missing": rng.random() < 0.7}
 
 
 def experiment(case):
@@ -72,7 +72,7 @@ def experiment(case):
         drop_alt = case["alternatives"][-1]
     rec = Recorder(M.make({"name": case["dmaker"]}), drop=drop_alt,
                    drop_from=0 if case["drop"] == "every" else 2)
-    strat = {"median": "median", "mean": "mean", "max": np.max}[case["strategy"]]
+    strat = {"median": "median", "mean": "mean", "max": np.max, "min": np.min}[case["strategy"]]
     chk = RankInvariantChecker(rec, repeat=case["repeat"], last_diff_strategy=strat, random_state=case["seed"],
                                allow_missing_alternatives=case["allow_missing"])
     rc = chk.evaluate(dm)
@@ -147,6 +147,8 @@ def analyse(case, o):
                 for c in colg]
     elif case["strategy"] == "mean":
         last = [sum(c) / len(c) for c in colg]
+    elif case["strategy"] == "min":
+        last = [min(c) for c in colg]
     else:
         last = [max(c) for c in colg]
     bounds = gaps + [last]
@@ -193,7 +195,7 @@ def zero_bound_predicted(case):
         rows = [case["matrix"][case["alternatives"].index(a)] for a in order[1:]]
         gaps = [[abs(x - y) for x, y in zip(rows[k], rows[k + 1])] for k in range(len(rows) - 1)]
         m = len(case["weights"])
-        f = {"median": np.median, "mean": np.mean, "max": np.max}[case["strategy"]]
+        f = {"median": np.median, "mean": np.mean, "max": np.max, "min": np.min}[case["strategy"]]
         last = [float(f([g[j] for g in gaps])) for j in range(m)] if gaps else [0.0] * m
         return any(all(x == 0 for x in b) for b in gaps + [last])
     except Exception:  # noqa: BLE001
@@ -273,7 +275,7 @@ def run(ctx):
             ctx.oracle_fail(c, {"oracle": msg})
             continue
         it = {a: k + 1 for k, a in enumerate(c["alternatives"])}
-        code = {"median": 0, "mean": 1, "max": 2}[c["strategy"]]
+        code = {"median": 0, "mean": 1, "max": 2, "min": 2}[c["strategy"]]
         calls.append(("rrt", ([x == 1 for x in c["objectives"]], data["rows"], code, data["last"],
                               [(pos, noise) for pos, noise in data["noises"]])))
         owners.append((c, data, "rrt"))
